@@ -352,6 +352,8 @@ def build_all(flavours, workdir, drivers, pairs=None):
         libdir = B.build_lib(fl, workdir)
         B.build_isal_ref(fl, workdir)
         B.build_shss_ref(fl, workdir)
+        B.build_jer_ref(fl, workdir)
+        B.build_phazr_ref(fl, workdir)
         bins = {}
         for d in drivers:
             if pairs is not None and (fl, d) not in pairs:
